@@ -353,12 +353,15 @@ theorem src_find_id_args (pre post : Flat) (t : RT) :
       have hin : inb s.out (1 + (j : Int)) = true := by
         apply inb_of_bounds _ _ (by omega)
         rw [ho]; simp only [List.length_append, List.length_take, List.length_replicate]; omega
+      have hinj : inb s.out (j : Int) = true := by
+        apply inb_of_bounds _ _ (by omega)
+        rw [ho]; simp only [List.length_append, List.length_take, List.length_replicate]; omega
       have hfes := fes_kid pre post sym ks j (by omega)
       rw [← hTget j (by omega), ← hTget (j + 1) hj'] at hfes
       have hfes' : find_end_subtree_from_i (T.getD j 0)
           (List.map Int.ofNat (arities (pre ++ flat (RT.node sym ks) ++ post))) =
           some (T.getD (j + 1) 0) := hfes
-      simp only [hb, Bool.false_eq_true, if_false, h1, h2, hget, hfes', he, hd, hin, Bool.not_true,
+      simp only [hb, Bool.false_eq_true, if_false, h1, h2, hget, hfes', he, hd, hin, hinj, Bool.not_true,
         Bool.or_self, true_and]
       rw [ho]
       exact set_take_replicate T ks.length j hTlen hj' _ rfl
